@@ -41,7 +41,8 @@ class HarnessError(Exception):
 FEAS_TIMEOUT_MS = int(os.environ.get("SYMX_FEAS_TIMEOUT_MS", "10000"))
 OBL_TIMEOUT_MS = int(os.environ.get("SYMX_OBL_TIMEOUT_MS", "30000"))
 NRA_TIMEOUT_MS = int(os.environ.get("SYMX_NRA_TIMEOUT_MS", "60000"))
-NRA_MODE = os.environ.get("SYMX_NRA_MODE", "oneshot")
+NRA_MODE = os.environ.get("SYMX_NRA_MODE", "hybrid")
+HYBRID_MS = int(os.environ.get("SYMX_HYBRID_MS", "300"))
 
 
 def z3val(v):
@@ -150,6 +151,7 @@ class Ctx(object):
         self.fresh_counter = {}
         self.inputs = {}         # name -> z3 const (reported in counterexamples)
         self.choices = {}        # name -> concrete choice taken on this path
+        self._in_summary = False
         self.nonlinear = False
         self.fmt_table = {}      # marker id -> (z3 term, spec)
         self.fmt_events = []
@@ -193,25 +195,37 @@ class Ctx(object):
             self.solver.add(e)
             st.append(e)
 
-    def _check(self, *extra):
-        """check pc (+ extra); returns ('sat'|'unsat'|'unknown', model or None)."""
+    def _check(self, *extra, obligation=False):
+        """check pc (+ extra); returns ('sat'|'unsat'|'unknown', model or None).
+
+        Linear paths: incremental solver.  Nonlinear paths (hybrid mode): incremental solver under a
+        short time limit first (most feasibility queries are easy), one-shot QF_NRA (nlsat) when it
+        answers unknown."""
         t0 = time.time()
-        if self.nonlinear and NRA_MODE != "incremental":
+        if self.nonlinear and (NRA_MODE == "oneshot" or (obligation and NRA_MODE == "hybrid")):
             res, mdl = self._fallback_nra(extra)
             self.stats.solver_s += time.time() - t0
             return res, mdl
         self._sync()
+        short = self.nonlinear and NRA_MODE == "hybrid"
+        if short:
+            self.solver.set("timeout", HYBRID_MS)
         if extra:
             self.solver.push()
             for e in extra:
                 self.solver.add(e)
-        r = self.solver.check()
-        res = str(r)
-        mdl = None
-        if res == "sat":
-            mdl = self.solver.model()
+        try:
+            r = self.solver.check()
+            res = str(r)
+            mdl = None
+            if res == "sat":
+                mdl = self.solver.model()
+        except z3.Z3Exception:
+            res, mdl = "unknown", None
         if extra:
             self.solver.pop()
+        if short:
+            self.solver.set("timeout", FEAS_TIMEOUT_MS)
         if res == "unknown":
             res, mdl = self._fallback_nra(extra)
         self.stats.solver_s += time.time() - t0
@@ -254,6 +268,11 @@ class Ctx(object):
             self.pc.append(cond if val else z3.Not(cond))
             return val
         ncond = z3.Not(cond)
+        if self._in_summary:
+            self.pending_children.append(self.decisions + [False])
+            self.decisions.append(True)
+            self.pc.append(cond)
+            return True
         t_ok = f_ok = None
         if self.model is not None and self.model_at == len(self.pc):
             mv = self.model.eval(cond, model_completion=True)
@@ -319,6 +338,54 @@ class Ctx(object):
         self.choices[name] = val
         return val
 
+    def summarise(self, fn, *args):
+        """Execute the pure, boolean-valued `fn(*args)` of the real code on all of its paths and
+        merge them into one z3 Bool (Or of path-condition AND result) -- the caller does not fork.
+
+        The body is still executed symbolically in full; only the forking of the caller is merged.
+        Inner branches are not feasibility-checked (an infeasible disjunct is harmless)."""
+        base_len = len(self.pc)
+        saved = (self.decisions, self.prefix, self.pending_children, self.model, self.model_at,
+                 self._in_summary)
+        outcomes = []
+        todo = [[]]
+        n = 0
+        try:
+            self._in_summary = True
+            while todo:
+                lp = todo.pop()
+                n += 1
+                if n > 512:
+                    raise Unsupported("summarise: more than 512 inner paths")
+                self.decisions, self.prefix, self.pending_children = [], lp, []
+                del self.pc[base_len:]
+                try:
+                    r = fn(*args)
+                except PathAbort:
+                    todo.extend(self.pending_children)
+                    continue
+                conj = list(self.pc[base_len:])
+                outcomes.append((conj, r))
+                todo.extend(self.pending_children)
+        finally:
+            del self.pc[base_len:]
+            (self.decisions, self.prefix, self.pending_children, self.model, self.model_at,
+             self._in_summary) = saved
+        disj = []
+        for conj, r in outcomes:
+            if r is None or r is False:
+                continue
+            if r is True:
+                rt = z3.BoolVal(True)
+            elif hasattr(r, "t") and z3.is_bool(r.t):
+                rt = r.t
+            else:
+                raise Unsupported("summarise: non-boolean result %r" % (r,))
+            disj.append(z3.And(*(conj + [rt])) if conj else rt)
+        if not disj:
+            return z3.BoolVal(False)
+        return z3.simplify(z3.Or(*disj))
+
     def concretize_int(self, term, lo, hi, what="int"):
         """Fork over the integer values lo..hi of z3 Int `term`; abort path beyond the bound."""
         for k in range(lo, hi + 1):
@@ -374,7 +441,7 @@ class Ctx(object):
             self._label(label, 0)
             return True
         t_obl = time.time()
-        r, m = self._check(neg)
+        r, m = self._check(neg, obligation=True)
         t_obl = time.time() - t_obl
         self.stats.obl_s += t_obl
         if t_obl > self.stats.slowest[0]:
